@@ -228,8 +228,15 @@ def _one(case: Case) -> str:
         if s[0] == "run":
             c = _mk(s[1])
             n = int(s[2])
-            x = let(_Item, [_Item(i) for i in range(n)])
-            q = an(entity(x), quantification=c) if c is not None else an(entity(x))
+            if int(case.key()[:4], 16) % 3 == 0:
+                # the same quantifier over an entity DESCRIBED BY A MATCH PATTERN (entity_matching(T, domain)):
+                # the constraint must reach the quantifier whichever way the entity is described
+                from krrood.entity_query_language.match import entity_matching
+                m = entity_matching(_Item, [_Item(i) for i in range(n)])
+                q = an(m, quantification=c) if c is not None else an(m)
+            else:
+                x = let(_Item, [_Item(i) for i in range(n)])
+                q = an(entity(x), quantification=c) if c is not None else an(entity(x))
             got = []
             try:
                 for r in q.evaluate():
